@@ -17,6 +17,8 @@ def search(rng, tier, broken, cases):
     S = SS.search_c12(rng, 45 if tier == "quick" and not broken else 450)
     import dtypesearch
     dtypesearch.search_dtype(rng, 12 if tier == "quick" and not broken else 60, ['steps'], pid="C12", S=S)   # same numbers typed int64 vs float64
+    import implsearch as _IS
+    _IS.refused_then_retry(S, "C12", rng, 9 if tier == "quick" and not broken else 54)
     return S.violations, S.stats()
 
 
